@@ -193,6 +193,7 @@ def get_stream(name, tier, seed, use_cache=True):
         lines = [l for l in lines if l.strip()]
         res = P.differential(lines) if lines else {}
         s = summarize(name, lines, meta, res, time.time() - t0)
+        s["inv"] = P.run_inv([r["line"] for r in res.values()])
         tmp = path + ".tmp%d" % os.getpid()
         json.dump(s, open(tmp, "w"))
         os.replace(tmp, path)
